@@ -138,13 +138,17 @@ def mk_global(tag="G", if_style="if_expr", expr_wrapper="chain_call", seq_contra
     return g
 
 
-def mk_pending(cls, node, nsp, nsp_global, **attrs):
-    """instance without running __init__ (PendingNode.__init__ only stores these and creates
-    the generator; classes with their own __init__ are run through it by the suites)"""
-    obj = object.__new__(cls)
-    obj.node = node
-    obj.nsp = nsp
-    obj.nsp_global = nsp_global
+def mk_pending(cls, node, nsp, nsp_global, m=None, **attrs):
+    """Instance of a Pending* class.  With a machine `m` the REAL constructor is run
+    (interpreted), so whatever state __init__ sets up is there; `attrs` are set afterwards
+    (state that in a real conversion is produced by the children's conversion)."""
+    if m is not None:
+        obj = m.call_value(cls, node, nsp=nsp, nsp_global=nsp_global)
+    else:
+        obj = object.__new__(cls)
+        obj.node = node
+        obj.nsp = nsp
+        obj.nsp_global = nsp_global
     for k, v in attrs.items():
         setattr(obj, k, v)
     return obj
